@@ -390,20 +390,21 @@ PACES = ["acknowledges stream and connection at once", "acknowledges on the conn
 
 @harness(
     "C02",
-    dom={"si": (0, len(S_STATUS) - 1), "hi": (0, 3), "ci": (0, len(S_CHUNKS) - 1), "head": "bool", "pace": (0, 4), "h2c": "bool", "tr": (0, 2)},
+    dom={"si": (0, len(S_STATUS) - 1), "hi": (0, 3), "ci": (0, len(S_CHUNKS) - 1), "head": "bool", "pace": (0, 4), "h2c": "bool", "tr": (0, 2), "prio": (0, 2)},
     split={"pace": "each", "ci": "each"},
-    witnesses=[{"si": 0, "hi": 1, "ci": 4, "head": False, "pace": 1, "h2c": False, "tr": 0}, {"si": 3, "hi": 1, "ci": 5, "head": True, "pace": 3, "h2c": False, "tr": 0},
-               {"si": 0, "hi": 0, "ci": 3, "head": False, "pace": 2, "h2c": False, "tr": 1}],
+    witnesses=[{"si": 0, "hi": 1, "ci": 4, "head": False, "pace": 1, "h2c": False, "tr": 0, "prio": 0}, {"si": 3, "hi": 1, "ci": 5, "head": True, "pace": 3, "h2c": False, "tr": 0, "prio": 0},
+               {"si": 0, "hi": 0, "ci": 3, "head": False, "pace": 2, "h2c": False, "tr": 1, "prio": 0}, {"si": 0, "hi": 1, "ci": 2, "head": False, "pace": 0, "h2c": False, "tr": 0, "prio": 1},
+               {"si": 0, "hi": 1, "ci": 4, "head": False, "pace": 2, "h2c": False, "tr": 0, "prio": 2}],
     budget={"quick": 200, "thorough": 900},
     per_path=120,
-    bounds="HTTP/2 responses: 4 (thorough 7) statuses x 4 header lists x 7 chunkings x GET/HEAD x 5 client paces (acks both levels, connection level only, 2000-byte initial window, acks only when stalled, window exactly the body size and no acks at all) x h2 via ALPN or via h2c upgrade x {no trailers, trailers to a client that sent te: trailers, trailers to a client that did not}, parsed by an independent h2 client that enforces flow control",
+    bounds="HTTP/2 responses: 4 (thorough 7) statuses x 4 header lists x 7 chunkings x GET/HEAD x 5 client paces (acks both levels, connection level only, 2000-byte initial window, acks only when stalled, window exactly the body size and no acks at all) x h2 via ALPN or via h2c upgrade x {no trailers, trailers to a client that sent te: trailers, trailers to a client that did not} x {no PRIORITY frames, a PRIORITY frame for the request's stream in an earlier read than its HEADERS, a PRIORITY frame for a stream that never opens}, parsed by an independent h2 client that enforces flow control",
     encodes=["hypercorn/protocol/h2.py::H2Protocol.stream_send", "hypercorn/protocol/h2.py::H2Protocol._send_data", "hypercorn/protocol/h2.py::H2Protocol.send_task", "hypercorn/protocol/h2.py::H2Protocol._window_updated",
              "hypercorn/protocol/h2.py::H2Protocol.initiate", "hypercorn/protocol/http_stream.py::HTTPStream.app_send"],
     stubs=["tier B runtime"],
 )
-def h2_response_delivery(si: int, hi: int, ci: int, head: bool, pace: int, h2c: bool, tr: int) -> bool:
+def h2_response_delivery(si: int, hi: int, ci: int, head: bool, pace: int, h2c: bool, tr: int, prio: int) -> bool:
     """
-    pre: DOM(h2_response_delivery, si=si, hi=hi, ci=ci, head=head, pace=pace, h2c=h2c, tr=tr)
+    pre: DOM(h2_response_delivery, si=si, hi=hi, ci=ci, head=head, pace=pace, h2c=h2c, tr=tr, prio=prio)
     post: _
     """
     enter()
@@ -414,6 +415,9 @@ def h2_response_delivery(si: int, hi: int, ci: int, head: bool, pace: int, h2c: 
     pace = conc(pace, 0, 4)
     h2c = True if h2c else False
     tr = conc(tr, 0, 2)
+    prio = conc(prio, 0, 2)
+    if prio and (h2c or (_QUICK and (head or tr or hi != 1))):
+        return done(True, skipped="PRIORITY frames: not over h2c (stream 1 is implicit); quick tier: GET with a content-length and no trailers")
     method = b"HEAD" if head else b"GET"
     no_body = ref_suppress(method.decode(), status)
     if tr and (h2c or (_QUICK and (head or hi not in (0, 1)))):
@@ -451,6 +455,11 @@ def h2_response_delivery(si: int, hi: int, ci: int, head: bool, pace: int, h2c: 
         client.feed(hd[2])
         client._s(1)
     else:
+        if prio:
+            # the PRIORITY frame travels in an earlier read than the request
+            client.prioritize(1 if prio == 1 else 5, weight=32)
+            conn.feed(client.take())
+            client.feed(conn.take())
         client.request(1, method, b"/r", headers=[(b"te", b"trailers")] if tr == 1 else None, end_stream=True)
         conn.feed(client.take())
     for _ in range(120):
@@ -490,4 +499,4 @@ def h2_response_delivery(si: int, hi: int, ci: int, head: bool, pace: int, h2c: 
         why = f"application still blocked at step {app.instances[0].step}"
     if not why and conn.sched.errors:
         why = "exception escaped a task: %r" % (conn.sched.errors[0],)
-    return done(why == "", status=status, headers=S_HEADERS[hi], chunks=chunks, method=method, pace=PACES[pace], h2c=h2c, trailers=["none", "to a te: trailers client", "to a client without te"][tr], why=why)
+    return done(why == "", status=status, headers=S_HEADERS[hi], chunks=chunks, method=method, pace=PACES[pace], h2c=h2c, trailers=["none", "to a te: trailers client", "to a client without te"][tr], priority=["none", "for the stream, before its HEADERS", "for a stream that never opens"][prio], why=why)
